@@ -184,6 +184,7 @@ def showErr : Err → String
   | .unsetMsg m => "err unset " ++ hexOfStr m
   | .indirect => "err indirect"
   | .negIndex => "err negindex"
+  | .substr n => "err substr " ++ toString n
   | .unsupported => "err unsupported"
   | .panic => "panic"
 
